@@ -11,7 +11,7 @@ use crate::props::common::*;
 use serde_json::json;
 use std::collections::HashMap;
 
-pub const RULE: &str = "set-of-classes model checked after every insert with a full-universe sweep. (a) exhaustive DFS over every insertion sequence of distinct classes up to capacity+1 and every sequence with one repeat for (q,r) in {(1,1),(1,2),(2,1),(2,2)} under the Identity hasher; (b) thorough: every quotient sequence of length <= 8 for q=3; (c) random and crafted (hot quotient, wrap-around, full table) histories for q<=8, r<=16 with Identity/Mix/Sip/Collide hashers. non-trivial = history with >= 1 shift step or a Full error; distinct = distinct (config, insertion sequence) hashes";
+pub const RULE: &str = "set-of-classes model checked after every insert with a full-universe sweep. (a) exhaustive DFS over every insertion sequence of distinct classes up to capacity+1 and every sequence with one repeat for (q,r) in {(1,1),(1,2),(2,1),(2,2)} under the Identity hasher; (b) thorough: every quotient sequence of length <= 8 for q=3; (c) capacity boundary of tables with 2^12..2^25 (2^26 thorough) slots, one class per slot; (d) random and crafted (hot quotient, wrap-around, full table) histories for q<=8, r<=16 (every 6th item r in {33,40,48,64-q}, universes with single-bit-neighbour fingerprints) with Identity/Mix/Sip/Collide hashers. non-trivial = history with >= 1 shift step or a Full error; distinct = distinct (config, insertion sequence) hashes";
 pub const ASSUMPTIONS: &[&str] = &[
     "classes are defined by the filter under test exactly as the property states (singleton filter reports the other element); the collapse gate bounds over-approximation",
     "Identity hasher: hash_one(k) == k (unit-tested)",
@@ -366,7 +366,8 @@ pub fn random_item(ctx: &Ctx, i: usize, rep: &mut Report) {
     let mut r = FastRng::new(ctx.sub_seed(&[3, i as u64]));
     let big = r.chance(0.12);
     let mut cfg = pick_qf(&mut r, if big { 8 } else { 5 });
-    cfg.r = cfg.r.min(16);
+    // mostly narrow remainders; every 6th item 33..61 bits (incl. q + r = 64)
+    cfg.r = if i % 6 == 5 { *r.pick(&[33usize, 40, 48, 64 - cfg.q]) } else { cfg.r.min(16) };
     cfg.bh = match i % 4 {
         0 | 1 => CtlBuildHasher::identity(),
         2 => CtlBuildHasher::new(HMode::Mix, r.next()),
@@ -461,6 +462,62 @@ pub fn random_item(ctx: &Ctx, i: usize, rep: &mut Report) {
     rep.count("sweep_queries", queries);
 }
 
+/// Capacity boundary of a big table: one class per slot (Identity hasher, no shifting), the table
+/// must accept exactly 2^q classes and report Full for the next new one.
+fn capacity_boundary(q: usize, rep: &mut Report) {
+    let cfg = QfCfg { q, r: 1, bh: CtlBuildHasher::identity() };
+    let label = cfg.label();
+    rep.config(&label);
+    let n = 1u64 << q;
+    let res = guarded(|| -> Option<(String, String)> {
+        let mut f = cfg.make();
+        for quot in 0..n {
+            if quot & 0xf_ffff == 0 {
+                beat();
+            }
+            let k = quot << 1; // remainder 0
+            match Flt::insert(&mut f, k) {
+                Ok(true) => {}
+                other => {
+                    return Some((
+                        format!("C13/insert-result/expected-Ok(true)-got-{}", match other { Ok(false) => "Ok(false)", _ => "Err(Full)" }),
+                        format!("insert of new class #{} of {} (one per slot) returned {:?} with len() = {}", quot + 1, n, other, Flt::len(&f)),
+                    ))
+                }
+            }
+            if quot + 1 == n - 1 || quot + 1 == n {
+                if Flt::len(&f) as u64 != quot + 1 {
+                    return Some(("C13/len".into(), format!("len() = {} after {} distinct classes", Flt::len(&f), quot + 1)));
+                }
+            }
+        }
+        // full: a new class must be rejected, known ones are known, absent ones absent
+        for quot in [0u64, 1, n / 2, n - 1] {
+            if Flt::insert(&mut f, (quot << 1) | 1) != Err(()) {
+                return Some(("C13/insert-result/expected-Err(Full)-got-Ok".into(), format!("a new class was accepted by a table holding 2^{} classes", q)));
+            }
+            if Flt::insert(&mut f, quot << 1) != Ok(false) {
+                return Some(("C13/insert-result/expected-Ok(false)-got-other".into(), "re-insert of a known class into a full table".into()));
+            }
+            if !Flt::query(&f, quot << 1) || Flt::query(&f, (quot << 1) | 1) {
+                return Some(("C13/query/false-positive-from-bookkeeping".into(), format!("full table: wrong query answer around quotient {}", quot)));
+            }
+        }
+        None
+    });
+    rep.evaluations += n;
+    rep.count("capacity_boundary_tables", 1);
+    match res {
+        Ok(None) => {
+            let mut h = CaseHash::new(&label);
+            h.push(q as u64);
+            rep.nontrivial(h.0);
+        }
+        Ok(Some((sig, what))) => rep.violation(sig, format!("{} (one class per slot): {}", label, what), json!({"config": cfg})),
+        Err(msg) => rep.violation(format!("C13/panic/insert/{}", panic_class(&msg)), format!("{}: panicked: {}", label, msg), json!({"config": cfg})),
+    }
+}
+
 pub fn run(ctx: &Ctx) -> Report {
     // work items: exhaustive (q,r) x first class; [thorough] quotient-sequence prefixes; random
     let mut items: Vec<(u8, usize, usize, usize)> = vec![]; // (kind, a, b, c)
@@ -485,6 +542,15 @@ pub fn run(ctx: &Ctx) -> Report {
             }
         }
     }
+    // capacity boundary of big tables (release build only: 2^25 inserts)
+    if !ctx.is_dbg() {
+        for q in [12usize, 20, 24, 25] {
+            items.push((3, q, 0, 0));
+        }
+        if ctx.tier == Tier::Thorough {
+            items.push((3, 26, 0, 0));
+        }
+    }
     let n_random = ctx.tier.pick(3000, 60_000);
     let n_fixed = items.len();
     let mut rep = par_run(ctx, n_fixed + n_random, |i, rep| {
@@ -500,6 +566,7 @@ pub fn run(ctx: &Ctx) -> Report {
                     rep.config(cfg.label());
                     exhaustive(&cfg, c, rep);
                 }
+                3 => capacity_boundary(a, rep),
                 1 => {
                     let cfg = QfCfg {
                         q: 3,
